@@ -1,6 +1,5 @@
 //! C05 — set similarity combines the pairwise matrix as funSimAvg / funSimMax / BMA.
 
-use crate::build::{via_builder, Finish};
 use crate::gen::pick;
 use crate::model::*;
 use crate::observe::guarded;
@@ -31,13 +30,19 @@ pub enum Case {
 
 thread_local! {
     static FLAT: Ontology = {
+        // loaded from own v3 bytes: every fifth term is flagged obsolete, some name a replacement
+        // (flags must not influence set similarities)
         let mut f = Facts::default();
         f.terms.push(TermFact { id: 100, name: "root".into(), obsolete: false, replacement: None });
+        f.terms.push(TermFact { id: 118, name: "phenotype".into(), obsolete: false, replacement: None });
+        f.edges.push((118, 100));
         for i in 0..NT as u32 {
-            f.terms.push(TermFact { id: i + 1, name: format!("t{i}"), obsolete: false, replacement: None });
-            f.edges.push((i + 1, 100));
+            f.terms.push(TermFact { id: i + 1, name: format!("t{i}"), obsolete: i % 5 == 0, replacement: if i % 10 == 0 { Some(i + 2) } else { None } });
+            if i != 0 {
+                f.edges.push((i + 1, 100));
+            }
         }
-        via_builder(&f, Finish::Minimal).expect("flat ontology")
+        crate::build::via_binary(&f, 3).expect("flat ontology")
     };
 }
 
